@@ -364,3 +364,17 @@ pub fn work_bits(c: &Context) -> u64 {
 }
 
 pub const HEAVY_WORK_BITS: u64 = 1 << 22;
+
+/// Size in bits of the largest node value in any graph of the context. Type inference accepts
+/// valid operations whose result has billions of elements (a Dot of two rank-4 arrays); evaluating
+/// one is an allocation of tens of gigabytes, which aborts the process rather than failing a case.
+pub fn max_node_bits(c: &Context) -> u64 {
+    c.get_graphs()
+        .iter()
+        .flat_map(|g| g.get_nodes())
+        .map(|n| n.get_type().ok().and_then(|t| ciphercore_base::data_types::get_size_in_bits(t).ok()).unwrap_or(u64::MAX))
+        .max()
+        .unwrap_or(0)
+}
+
+pub const GIANT_NODE_BITS: u64 = 1 << 27;
